@@ -71,6 +71,10 @@ CLAIMED.update({
     'C20': ('The real Backend/set_backend run against recording doubles of importlib, os.environ and a backend module over the full '
             'finite configuration grid, every point a solver-certified fork, and are compared with a reference resolver of the '
             "property's precedence rules (lazy single import, name/api/env precedence, constructor arguments, name listings).", '4/C20'),
+    'C11': ('Every history of <=3 (thorough 4-5) operations on a device port, EchoPort, IOPort wrapper and MultiPort, over device '
+            'doubles that deliver 0..2 messages and close themselves at every position relative to message arrival, with a fake '
+            'sleep that counts waits: single _close, reset messages once before it, ValueError after close, FIFO drain then stop, '
+            'iteration ends quietly, poll never sleeps, blocking receive returns at once when a message is deliverable.', '4/C11'),
 })
 
 PENDING = {}     # id -> reason (not claimed)
